@@ -29,6 +29,8 @@ def build_od(lay, nmaps):
             v.data_type = 0x5 if sub == 0 else 0x7
             mp.add_member(v)
     for i, (t, n) in enumerate(lay):
+        if (0x2000 + i) in od:
+            continue
         v = ODVariable(f"Obj{i}", 0x2000 + i, 0)
         v.data_type = t
         od.add_object(v)
@@ -82,10 +84,13 @@ def run_case(case: dict) -> dict:
     pmap.cob_id = case["pcob"]
     pmap.enabled = True
 
+    # objs[i]: number of the object mapped into slot i (an object may be mapped more than once)
+    objs = case.get("objs") or list(range(len(lay)))
+
     def add_vars(pm):
         for i, (t, n) in enumerate(lay):
             full = n == 8 * enc.NUM_SIZE[t]
-            pm.add_variable(0x2000 + i, 0, None if full else n)
+            pm.add_variable(0x2000 + objs[i], 0, None if full else n)
     add_vars(pmap)
     pmap.subscribe()      # as after tpdo.read() / save(): the producing map listens on its own COB-ID
     cmaps, cbcount = [], []
@@ -98,7 +103,7 @@ def run_case(case: dict) -> dict:
             od2[0x1800 + k][2].default = 255
             od2[0x1A00 + k][0].default = len(lay)
             for i, (t, n) in enumerate(lay):
-                od2[0x1A00 + k][i + 1].default = ((0x2000 + i) << 16) | n
+                od2[0x1A00 + k][i + 1].default = ((0x2000 + objs[i]) << 16) | n
             pm.read(from_od=True)
         else:
             pm.cob_id, pm.enabled, pm.rtr_allowed = c["cob"], c["enabled"], c["rtr"]
